@@ -45,7 +45,7 @@ class SparWithinWing(om.ExplicitComponent):
         self.add_input("t_over_c", val=np.zeros((self.ny - 1)))
         self.add_output("spar_within_wing", val=np.zeros((self.ny - 1)), units="m")
 
-        self.declare_partials("spar_within_wing", "mesh", method="cs")
+        self.declare_partials("spar_within_wing", ["mesh", "t_over_c"], method="cs")
 
         arange = np.arange(self.ny - 1)
         self.declare_partials("spar_within_wing", "radius", rows=arange, cols=arange, val=1.0)
